@@ -179,6 +179,11 @@ def exec_AC(t):
     try:
         x = mk(a, sx, nx, fx, rounding=r, overflow=o, op_input_size=insize, const_op_sizing=csz, op_method=meth,
                op_sizing='optimal' if csz != 'optimal' else 'same', dirty_ok=True)
+        # the same constant was used a moment ago with another object of the same format but the opposite configuration:
+        # nothing of that operation may survive into this one (constants are converted afresh for every operand)
+        r0, o0 = other_mode(r, o)
+        x0 = mk(a, sx, nx, fx, rounding=r0, overflow=o0, op_input_size=insize, const_op_sizing=csz, op_method=meth)
+        _ = OPER[op](x0, cv) if side == 'l' else OPER[op](cv, x0)
         z = OPER[op](x, cv) if side == 'l' else OPER[op](cv, x)
     except Exception as e:
         return [exc_token(e)]
